@@ -421,6 +421,61 @@ def forms_pass(ctx, ops):
                     if not ok:
                         ctx.violation('twin-algebra-operands', case, str(exp)[:300], str(got)[:300], key=f'{op}:twin-algebra')
                         break
+    # (6) a parent algebra and the algebras derived from it with dataclasses.replace (they receive the parent's `numspace` dict), used
+    # alternately with the SAME ordered key patterns: the parent's numeric products still follow the parent's signature afterwards
+    for sig0, sig1 in (([1, 1, 1], [1, 1, -1]), ([1, -1], [-1, 1])):
+        parent = make_algebra(sig0)
+        sibling = dataclasses.replace(parent, signature=list(sig1))
+        pats = [([1, 2], [1, 2]), ([1, 2, 4][: len(sig0)], [2, 1]), ([3, 1], [1, 3])]
+        for rnd in range(3):
+            for nm, alg in ((('parent', parent), ('replace:signature', sibling)) if rnd != 1 else (('replace:signature', sibling), ('parent', parent))):
+                Ssig = alg.signs
+                for kx, ky in pats:
+                    for op in ops:
+                        if op not in BIN or op not in REFBIN:
+                            continue
+                        vx = [Fraction(rng.randint(1, 9)) for _ in kx]; vy = [Fraction(rng.randint(1, 9)) for _ in ky]
+                        case = {'sig': [int(v) for v in alg.signature], 'algebra': nm, 'round': rnd, 'op': op, 'kx': kx, 'ky': ky,
+                                'history': 'parent and dataclasses.replace(parent, signature=..) used alternately'}
+                        ctx.case(case, tag='sibling-algebras')
+                        try:
+                            got = mv_to_dict(BIN[op](MultiVector.fromkeysvalues(alg, tuple(kx), list(vx)), MultiVector.fromkeysvalues(alg, tuple(ky), list(vy))))
+                        except ZeroDivisionError:
+                            continue
+                        exp = REFBIN[op](Ssig, dict(zip(kx, vx)), dict(zip(ky, vy)))
+                        if got != {k: v for k, v in exp.items() if v != 0}:
+                            ctx.violation('sibling-algebra-history', case, str(exp)[:250], str(got)[:250], key=f'{op}:sibling-algebras')
+    # (7) signatures given as floats / float arrays (the sign table then holds numpy floats): exact coefficients stay exact -
+    # Fractions and ints beyond 2**53 come back as the same exact numbers as with the integer signature
+    import numpy as np
+    for sig in ([1, 1, -1], [0, 1, 1]):
+        for form, given in (('float list', [float(v) for v in sig]), ('float64 array', np.array(sig, dtype=float)), ('int64 array', np.array(sig))):
+            alg = make_algebra(given)
+            ref = make_algebra(list(sig))
+            for op in ops:
+                if op not in BIN:
+                    continue
+                for _ in range(2 if ctx.quick else 6):
+                    kx, ky = key_tuples(rng, alg.d, 2, ['small', 'grades'])
+                    kx, ky = (kx or [1])[:4], (ky or [1])[:4]
+                    vx = [rng.choice((Fraction(rng.randint(1, 9), 7), 2 ** 60 + rng.randint(1, 9))) for _ in kx]
+                    vy = [rng.choice((Fraction(rng.randint(1, 9), 3), 2 ** 59 + rng.randint(1, 9))) for _ in ky]
+                    case = {'sig': sig, 'signature_given_as': form, 'op': op, 'kx': kx, 'ky': ky, 'vx': [str(v) for v in vx], 'vy': [str(v) for v in vy]}
+                    ctx.case(case, tag='float-signature')
+                    try:
+                        exp = BIN[op](MultiVector.fromkeysvalues(ref, tuple(kx), list(vx)), MultiVector.fromkeysvalues(ref, tuple(ky), list(vy)))
+                    except ZeroDivisionError:
+                        continue
+                    try:
+                        got = BIN[op](MultiVector.fromkeysvalues(alg, tuple(kx), list(vx)), MultiVector.fromkeysvalues(alg, tuple(ky), list(vy)))
+                    except Exception as e:
+                        ctx.violation('float-signature', case, str(mv_to_dict(exp))[:200], 'raises ' + repr(e)[:150], key=f'{op}:float-signature:raises')
+                        continue
+                    ge, gg = mv_to_dict(exp), mv_to_dict(got)
+                    inexact = [k for k, v in gg.items() if isinstance(v, float)]
+                    if ge != gg or inexact:
+                        ctx.violation('float-signature', {**case, 'inexact_blades': inexact}, str(ge)[:250], str(gg)[:250], key=f'{op}:float-signature')
+                        break
     # (5) symbolic operands whose coefficients are not polynomial (roots and logarithms of products): the result coefficients are
     # compared with the reference over the sign table *as functions*: exactly, after substituting negative numbers
     import sympy
